@@ -276,6 +276,37 @@ def run(tier):
             ck.finding("R4.ledger-writers", "R4.ledger-writers/%s" % f.parent, F.short_span(f.span),
                        "`%s` mutates the order ledger (%s) but is not one of the designated ledger functions" % (f.parent, ", ".join(sorted(mut))))
 
+    # R4b: what the designated functions may do to the response table.  A response the host delivered is
+    # taken out only under the exact id being resumed or cancelled; wholesale operations belong to disposal.
+    ck.rule("R4b.response-by-key", "order_responses is consumed by key (remove/get), filled by insert; bulk operations only where a run is disposed", floor=2)
+    BULK = ("retain", "retain_mut", "clear", "drain", "extract_if", "take", "split_off", "truncate", "replace", "swap", "into_iter", "into_values", "into_keys")
+    DISPOSERS = ("Interpreter::abort_active_execution", "Interpreter::finalize_active_execution", "Interpreter::prepare", "Interpreter::new", "Interpreter::with_config")
+    for f in fx.fns.values():
+        for bi, t in f.calls():
+            if not t[2] or t[2][0][0] not in ("c", "m"):
+                continue
+            fl = E.field_of_ref(f, t[2][0][1][0])
+            if not fl or fl[0] != INTERP or fl[2] != "order_responses":
+                continue
+            meth = t[1].get("d", "?").split("::")[-1]
+            bulk = meth in BULK
+            ok = not bulk or f.parent.endswith(DISPOSERS) or M.only_called_from(fx, f.parent, {p for p in fx.fns if p.endswith(DISPOSERS)})
+            ck.instance("R4b.response-by-key", "%s: order_responses.%s" % (f.parent, meth), F.short_span(t[6]), ok=ok)
+            if not ok:
+                ck.finding("R4b.response-by-key", "R4b.response-by-key/%s/%s" % (f.parent, meth), F.short_span(t[6]),
+                           "`%s` applies `%s` to order_responses: responses other than the one being resumed or cancelled are dropped, so an order the host "
+                           "already answered can suspend its waiter for ever" % (f.parent, meth))
+
+        for bl in f.blocks:
+            for st in bl["s"]:
+                if st[0] == "a" and st[1][1] and isinstance(st[1][1][-1], list) and st[1][1][-1][0] == "f" and st[1][1][-1][2] == "order_responses" \
+                        and st[1][1][-1][3] == INTERP and not f.derived:
+                    ok = f.parent.endswith(DISPOSERS) or M.only_called_from(fx, f.parent, {p for p in fx.fns if p.endswith(DISPOSERS)})
+                    ck.instance("R4b.response-by-key", "%s: order_responses = ..." % f.parent, F.short_span(st[3]), ok=ok)
+                    if not ok:
+                        ck.finding("R4b.response-by-key", "R4b.response-by-key/%s/assign" % f.parent, F.short_span(st[3]),
+                                   "`%s` replaces order_responses wholesale: delivered responses of other outstanding orders are dropped" % f.parent)
+
     wake_up_rule(fx, ck, "R5.wake-up")
 
     # R6 siblings
